@@ -66,6 +66,14 @@ def caekl_mutual_information(dist, rvs=None, crvs=None, rv_mode=None):
         a = sum(entropy(dist, rvs=p, crvs=crvs, rv_mode=rv_mode) for p in part)
         return (a - H) / (len(part) - 1)
 
-    J = min(I_P(p) for p in partitions(map(tuple, rvs)) if len(p) > 1)
+    candidates = [I_P(p) for p in partitions(map(tuple, rvs)) if len(p) > 1]
+
+    # The minimum is over the amount of information. For a distribution kept in
+    # a log base below 1 the entropies come out in (negative) base-b units, so
+    # the smallest amount of information is the largest number.
+    if dist.is_log() and dist.get_base(numerical=True) < 1:
+        J = max(candidates)
+    else:
+        J = min(candidates)
 
     return J
